@@ -89,6 +89,7 @@ type Event struct {
 	Thread  int
 	Monitor string
 	Text    string
+	Note    bool // recorded without a scheduling point: its position among other threads' events is not meaningful
 }
 
 type tstate uint8
